@@ -429,9 +429,10 @@ impl<'a, 'b> Add<&'b Substance> for &'a Substance {
                         Some((
                             k.clone(),
                             Property {
-                                output: (&(&self.amount * &prop1.output).unwrap()
-                                    + &(&other.amount * &prop2.output).unwrap())
-                                    .expect("Add"),
+                                // Amounts of different dimensionality don't add up
+                                // to anything for this property.
+                                output: (&(&self.amount * &prop1.output)?
+                                    + &(&other.amount * &prop2.output)?)?,
                                 input_name: prop1.input_name.clone(),
                                 input: mol,
                                 output_name: prop1.output_name.clone(),
